@@ -2,6 +2,7 @@ package rules
 
 import (
 	"fmt"
+	"go/constant"
 	"go/token"
 	"go/types"
 
@@ -175,4 +176,11 @@ func calleeName(c ssa.CallInstruction) string {
 		return core.QualName(o)
 	}
 	return "<dynamic>"
+}
+
+func constantInt(c *types.Const) (int64, bool) {
+	if c == nil || c.Val().Kind() != constant.Int {
+		return 0, false
+	}
+	return constant.Int64Val(c.Val())
 }
